@@ -70,6 +70,29 @@ fn check_frags(frags: &[Frag], widths: &[f64]) -> Outcome {
         frags.iter().map(|f| (f.w, f.ws, f.p)).collect::<Vec<_>>(),
         widths
     );
+    // the same fragments through the public dispatch layer,
+    // `WrapAlgorithm::FirstFit.wrap(&[Word], &[usize])` (what `wrap` and
+    // every user of a width *list* longer than two goes through): possible
+    // when every number is a small non-negative integer and penalties are
+    // 0 or 1 wide, so that `Word`s of that shape can be built from text
+    let mut dispatched = false;
+    if let Some((texts, uw)) = word_shaped(frags, widths) {
+        let words = words_of(frags, &texts);
+        let via: Vec<usize> = textwrap::WrapAlgorithm::FirstFit
+            .wrap(&words, &uw)
+            .iter()
+            .map(|l| l.len())
+            .collect();
+        ensure!(
+            via == want,
+            "WrapAlgorithm::FirstFit.wrap line lengths {:?} differ from the greedy reference {:?} for words (width, whitespace, penalty) {:?} and line widths {:?}",
+            via,
+            want,
+            frags.iter().map(|f| (f.w, f.ws, f.p)).collect::<Vec<_>>(),
+            uw
+        );
+        dispatched = true;
+    }
     // classification: exact-fit decisions
     let mut exact = false;
     let mut penalty_decisive = false;
@@ -96,6 +119,12 @@ fn check_frags(frags: &[Frag], widths: &[f64]) -> Outcome {
         acc += f.w + f.ws;
     }
     let mut classes = vec!["frag_level"];
+    if dispatched {
+        classes.push("via_wrap_algorithm_dispatch");
+        if widths.len() > 2 {
+            classes.push("dispatch_three_or_more_widths");
+        }
+    }
     if exact {
         classes.push("exact_fit_decision");
     }
@@ -260,6 +289,66 @@ fn frag_exact() -> BoxedStrategy<Frag> {
         .boxed()
 }
 
+/// A fragment shaped like a `Word`: small integer width and whitespace,
+/// penalty 0 or 1.
+pub fn int_frag() -> BoxedStrategy<Frag> {
+    (
+        prop_oneof![8 => 0u32..=9, 1 => 10u32..=40],
+        prop_oneof![6 => Just(1u32), 2 => Just(0u32), 1 => 2u32..=4],
+        prop_oneof![4 => Just(0u32), 1 => Just(1u32)],
+    )
+        .prop_map(|(w, ws, p)| Frag { w: w as f64, ws: ws as f64, p: p as f64 })
+        .boxed()
+}
+
+/// 1..=6 integer line widths in which an entry often repeats its
+/// predecessor; rarely usize::MAX.
+pub fn int_widths() -> BoxedStrategy<Vec<f64>> {
+    prop::collection::vec((0usize..=14, 0u8..3, any::<u16>()), 1..=6)
+        .prop_map(|v| {
+            let mut out: Vec<f64> = Vec::new();
+            for (w, rep, big) in v {
+                match (rep, out.last().copied()) {
+                    (0, Some(prev)) => out.push(prev),
+                    _ if big == 0 => out.push(usize::MAX as f64),
+                    _ => out.push(w as f64),
+                }
+            }
+            out
+        })
+        .boxed()
+}
+
+/// `Word`s with the measures of word-shaped fragments, or None when the
+/// fragments / line widths are not of that shape.
+pub fn word_shaped(frags: &[Frag], widths: &[f64]) -> Option<(Vec<(String, String)>, Vec<usize>)> {
+    let small = |x: f64| x >= 0.0 && x <= 64.0 && x.fract() == 0.0;
+    if frags.len() <= 400
+        && frags.iter().all(|f| small(f.w) && small(f.ws) && (f.p.to_bits() == 0 || f.p == 1.0))
+        && widths.iter().all(|w| *w >= 0.0 && ((*w as usize) as f64).to_bits() == w.to_bits())
+    {
+        Some((
+            frags.iter().map(|f| ("a".repeat(f.w as usize), " ".repeat(f.ws as usize))).collect(),
+            widths.iter().map(|w| *w as usize).collect(),
+        ))
+    } else {
+        None
+    }
+}
+
+pub fn words_of<'a>(frags: &[Frag], texts: &'a [(String, String)]) -> Vec<textwrap::core::Word<'a>> {
+    frags
+        .iter()
+        .zip(texts.iter())
+        .map(|(f, (w, ws))| {
+            let mut word = textwrap::core::Word::from(w.as_str());
+            word.whitespace = ws.as_str();
+            word.penalty = if f.p == 1.0 { "-" } else { "" };
+            word
+        })
+        .collect()
+}
+
 impl Property for P {
     const ID: &'static str = "C07";
     type Case = Case;
@@ -297,6 +386,12 @@ impl Property for P {
                 Case::Frags { frags, widths }
             },
         );
+        // word-shaped fragments (small integers, penalty 0 or 1) with a
+        // width *list* of up to six entries in which an entry often repeats
+        // its predecessor ([5, 5, 3], [3, 3, 3, 9]): every case of this arm
+        // also goes through `WrapAlgorithm::FirstFit.wrap`
+        let int_case = (prop::collection::vec(int_frag(), 0..=n + 8), int_widths())
+            .prop_map(|(frags, widths)| Case::Frags { frags, widths });
         let mut mix = Mix::FULL.no_endings();
         mix.esc_bad = 2;
         let og = OptGen {
@@ -331,7 +426,7 @@ impl Property for P {
                     prior,
                 }
             });
-        prop_oneof![50 => frag_case, 50 => text_case, 1 => scaled_text].boxed()
+        prop_oneof![40 => frag_case, 20 => int_case, 45 => text_case, 1 => scaled_text].boxed()
     }
     fn check(c: &Case, _m: Mode) -> Outcome {
         check(c)
